@@ -56,6 +56,9 @@ func pktRecipe(r *prng.R, i int) *rec.Rec {
 }
 
 func mixedCase(salt uint64, tier string, seed uint64, i int) *c06Case {
+	if i < len(ctorTable) { // values straight from the constructors (defaults untouched)
+		return &c06Case{Mode: "ctor", Recipe: rec.New("ctor").SetT("ctor", ctorTable[i].name)}
+	}
 	r := prng.Derive(seed, salt+1000, uint64(i))
 	switch i % 8 {
 	case 0, 1, 2:
@@ -118,6 +121,11 @@ func buildValue(cs *c06Case) (util.Message, error) {
 		return lib.BuildPacket(cs.Recipe)
 	case "misc":
 		return miscValue(cs.Recipe), nil
+	case "ctor":
+		if mk := ctorByName(cs.Recipe.Text("ctor")); mk != nil {
+			return mk(), nil
+		}
+		return nil, fmt.Errorf("unknown constructor case %q", cs.Recipe.Text("ctor"))
 	}
 	return nil, nil
 }
